@@ -94,10 +94,11 @@ def valid_for(content: bytes, types=TYPES):
                 pass
             continue
         if text is None:
-            # not valid UTF-8.  JSON text is UTF-8 by definition (RFC 8259 section 8.1; JSON5 inherits it), so such
-            # a file is not a JSON / JSON5 document.  For the other formats (YAML allows UTF-16/32, XML / HTML / plist
-            # declare or sniff their encoding) this is left undecided (DESIGN 6.2).
-            if t not in ("json", "json5"):
+            # not valid UTF-8.  JSON text is UTF-8 by definition (RFC 8259 section 8.1; JSON5 inherits it); a YAML stream
+            # is UTF-8 / UTF-16 / UTF-32 (a BOM or the null pattern decides; none of that here) and an XML document without
+            # an encoding declaration is UTF-8: such a file is malformed for these four types.  HTML parsers are lenient
+            # and plists may be binary: undecided there (DESIGN 6.2).
+            if t not in ("json", "json5", "yaml", "xml"):
                 undecided.add(t)
             continue
         try:
